@@ -140,6 +140,48 @@ def oracle_c01(ulines, lines, meta, every=6):
     return None
 
 
+def side_effect_check(impl):
+    """every effect of a loaded booster whose chance attribute has a value (zero included) is one of its side
+    effects: listed with that chance, switchable; an effect whose chance has no value is none"""
+    from eos import Booster
+    for i, obj in sorted(impl.items.items()):
+        if not isinstance(obj, Booster) or not obj._is_loaded:
+            continue
+        try:
+            listed = obj.side_effects
+        except Exception as e:  # noqa
+            return 'booster %d: side_effects raised %s' % (i, type(e).__name__)
+        for eid, effect in obj._type_effects.items():
+            ca = effect.fitting_usage_chance_attr_id
+            chance = None if ca is None else obj.attrs.get(ca)
+            if (chance is not None) != (eid in listed):
+                return ('booster %d: effect %d has chance %r but is %s booster.side_effects'
+                        % (i, eid, chance, 'in' if eid in listed else 'missing from'))
+            if chance is not None and listed[eid].chance != chance:
+                return 'booster %d: side effect %d reported with chance %r, the attribute is %r' % (
+                    i, eid, listed[eid].chance, chance)
+    return None
+
+
+def oracle_c05(ulines, lines, meta, every=6):
+    """the mirror oracle, and the side-effect switches of boosters at the end of the history"""
+    why = oracle_c01(ulines, lines, meta, every)
+    if why:
+        return why
+    impl = eng_impl.Impl()
+    for l in ulines:
+        impl.run(l)
+    for k, l in enumerate(lines):
+        r = impl.run(l)
+        if 'ZeroDivisionError' in r:
+            return None
+        if l.split()[0] in ('switch', 'randomize', 'source', 'sadd', 'slot', 'rappend', 'state', 'level', 'ssadd'):
+            why = side_effect_check(impl)
+            if why:
+                return dict(fails=why, upto=k)
+    return None
+
+
 DOC_EXN = ('exn TypeError', 'exn ValueError', 'exn KeyError', 'exn IndexError', 'exn SlotTakenError',
            'exn UnknownSourceError')
 
@@ -300,6 +342,19 @@ def oracle_c07(ulines, lines, meta):
             for it in fit.skills:
                 if fit.skills[it._type_id] is not it:
                     return dict(fails='skill lookup by type id disagrees with contents after %r' % l, upto=k)
+                # a type id is a number: membership, lookup and contents agree for every way of writing it
+                from fractions import Fraction as _Fr
+                for key in (it._type_id, float(it._type_id), _Fr(it._type_id)):
+                    try:
+                        ok = (key in fit.skills) and fit.skills[key] is it
+                    except Exception:  # noqa
+                        ok = False
+                    if not ok:
+                        return dict(fails='type id %r: membership / lookup in fit.skills disagree with its contents '
+                                          'after %r' % (key, l), upto=k)
+            for absent in (4242, 4242.0):
+                if (absent in fit.skills) != any(sk._type_id == 4242 for sk in fit.skills):
+                    return dict(fails='membership of absent type id %r in fit.skills after %r' % (absent, l), upto=k)
             for s in RACKS:
                 r = getattr(fit.modules, s)
                 lst = list(r)
